@@ -324,29 +324,36 @@ impl ClientEvent {
 
     /// Drains events `E` and re-emits them as [`FromClient<E>`].
     ///
+    /// Events that were already sent to a remote server are drained, but not re-emitted.
+    ///
     /// # Safety
     ///
-    /// The caller must ensure that `events` is [`Events<E>`], `client_events` is [`Events<FromClient<E>>`]
-    /// and this instance was created for `E`.
-    pub(crate) unsafe fn resend_locally(&self, client_events: PtrMut, events: PtrMut) {
-        unsafe { (self.resend_locally)(client_events, events) }
+    /// The caller must ensure that `events` is [`Events<E>`], `client_events` is [`Events<FromClient<E>>`],
+    /// `reader` is [`ClientEventReader<E>`] and this instance was created for `E`.
+    pub(crate) unsafe fn resend_locally(&self, client_events: PtrMut, events: PtrMut, reader: &Ptr) {
+        unsafe { (self.resend_locally)(client_events, events, reader) }
     }
 
     /// Typed version of [`ClientEvent::resend_locally`].
     ///
     /// # Safety
     ///
-    /// The caller must ensure that `events` is [`Events<E>`] and `server_events` is [`Events<ToClients<E>>`].
-    unsafe fn resend_locally_typed<E: Event>(server_events: PtrMut, events: PtrMut) {
-        let client_events: &mut Events<FromClient<E>> = unsafe { server_events.deref_mut() };
+    /// The caller must ensure that `events` is [`Events<E>`], `client_events` is [`Events<FromClient<E>>`]
+    /// and `reader` is [`ClientEventReader<E>`].
+    unsafe fn resend_locally_typed<E: Event>(client_events: PtrMut, events: PtrMut, reader: &Ptr) {
+        let client_events: &mut Events<FromClient<E>> = unsafe { client_events.deref_mut() };
         let events: &mut Events<E> = unsafe { events.deref_mut() };
+        let reader: &ClientEventReader<E> = unsafe { reader.deref() };
         if !events.is_empty() {
+            // Sending doesn't drain events, so after a disconnect the buffers
+            // may still contain events that were already sent to the server.
+            let sent_count = events.len() - reader.len(events);
             debug!(
                 "resending {} event(s) `{}` locally",
-                events.len(),
+                events.len() - sent_count,
                 any::type_name::<E>()
             );
-            client_events.send_batch(events.drain().map(|event| FromClient {
+            client_events.send_batch(events.drain().skip(sent_count).map(|event| FromClient {
                 client: SERVER,
                 event,
             }));
@@ -431,7 +438,7 @@ type SendFn = unsafe fn(&ClientEvent, &mut ClientSendCtx, &Ptr, PtrMut, &mut Rep
 type ReceiveFn = unsafe fn(&ClientEvent, &mut ServerReceiveCtx, PtrMut, &mut RepliconServer);
 
 /// Signature of client event resending functions.
-type ResendLocallyFn = unsafe fn(PtrMut, PtrMut);
+type ResendLocallyFn = unsafe fn(PtrMut, PtrMut, &Ptr);
 
 /// Signature of client event reset functions.
 type ResetFn = unsafe fn(PtrMut);
